@@ -180,6 +180,17 @@ def evaluate(inp):
         cd2, fd2 = MoleculeResolver.from_fragment_dicts(inp['base'], lib, last_all_atom=aa, legacy=legacy).resolve()
         if dump_pair(cd2, fd2) != D0:
             return bad('second-use-of-library-differs', None, {'string': s})
+        # a library built by hand: atoms with equal descriptor lists share ONE list object
+        lib3 = [read_fragments(fragstr, all_atom=aa)]
+        for g3 in lib3[0].values():
+            seen = {}
+            for n3, d3 in g3.nodes(data=True):
+                b3 = d3.get('bonding')
+                if b3:
+                    d3['bonding'] = seen.setdefault(tuple(b3), b3)
+        cd3, fd3 = MoleculeResolver.from_fragment_dicts(inp['base'], lib3, last_all_atom=aa, legacy=legacy).resolve()
+        if dump_pair(cd3, fd3) != D0:
+            return bad('library-with-shared-descriptor-lists-differs', None, {'string': s})
     except Exception as e:
         return bad('constructor-raises:' + type(e).__name__, None, {'string': s, 'error': repr(e)[:150]})
     return Verdict(nontrivial=nontrivial, outcome='%d/%d' % (len(coarse), len(fine)))
